@@ -1818,6 +1818,8 @@ class VariableNode(AstNode):
             raise RuntimeError("Arguments given to variable:", ast.gen_decl())
         self.ast = ast
         self.name = ast.name
+        if self.name is None:
+            raise RuntimeError("Missing name in declaration: " + decl)
 
         # format for struct
         fmt_var = self.fmtdict
